@@ -7,7 +7,6 @@ From V Require Import Base.Int Base.IntLemmas Base.IO Base.Utf8 Gen.DateTables G
 From V Require Model.Parsed Model.Date Model.Time Proofs.C14 Proofs.Date Proofs.C08.
 Import ListNotations.
 Open Scope Z_scope.
-Set Default Timeout 60.
 Ltac Zify.zify_post_hook ::= Z.to_euclidean_division_equations.
 
 Import Model.Parsed.
